@@ -353,3 +353,341 @@ Proof.
     split; [intros i [<-|[]]; lia|]. split; [simpl; auto|]. split; [vm_compute; reflexivity|].
     eexists. vm_compute. reflexivity.
 Qed.
+
+(** * 3. MinHeap and compute_core *)
+
+(** Storage invariant of the heap built by [resize(n)]: both vectors have SIZE n, the logical size is at
+    most n, and every stored entry (live or stale) is itself a valid index. *)
+Definition hinv (n : nat) (h : cheap) : Prop :=
+  length (c_val h) = n /\ length (c_pos h) = n /\ c_size h <= n /\
+  Forall (fun v => v < n) (c_val h) /\ Forall (fun p => p < n) (c_pos h).
+
+Lemma Forall_repeat0 n : Forall (fun v => v < n) (repeat 0 n).
+Proof.
+  destruct n as [|n]; [constructor|]. apply Forall_forall. intros x Hx.
+  apply repeat_spec in Hx. lia.
+Qed.
+
+Lemma hinv_resize n : hinv n (cheap_resize n).
+Proof.
+  unfold hinv, cheap_resize; cbn [c_val c_pos c_size]. rewrite !repeat_length.
+  repeat split; auto using Forall_repeat0. lia.
+Qed.
+
+Lemma cparent_lt i : (0 <= cparent i)%Z -> Z.to_nat (cparent i) < i.
+Proof. unfold cparent. intros H. Z.div_mod_to_equations. lia. Qed.
+
+Lemma cparent_nonneg i : i <> 0 -> (0 <= cparent i)%Z.
+Proof. unfold cparent. intros H. Z.div_mod_to_equations. lia. Qed.
+
+Lemma cscore_ok n h scores i :
+  hinv n h -> length scores = n -> i < n -> exists s, cscore h scores i = KOk s.
+Proof.
+  intros (Hv & _ & _ & HFv & _) Hs Hi. unfold cscore.
+  destruct (rd_Forall _ (c_val h) i HFv ltac:(lia)) as (v & Hr & Hvn).
+  rewrite Hr. cbn [kbind]. apply rd_some. lia.
+Qed.
+
+Lemma cscorez_ok n h scores (p : Z) :
+  hinv n h -> length scores = n -> (0 <= p)%Z -> Z.to_nat p < n ->
+  exists s, cscorez h scores p = KOk s.
+Proof.
+  intros Hh Hs Hp Hpn. unfold cscorez, rdz.
+  assert (E : (p <? 0)%Z = false) by (apply Z.ltb_ge; exact Hp). rewrite E.
+  exact (cscore_ok n h scores (Z.to_nat p) Hh Hs Hpn).
+Qed.
+
+Lemma cswap_ok n h x y :
+  hinv n h -> x < n -> y < n ->
+  exists h', cswap h x y = KOk h' /\ hinv n h' /\ c_size h' = c_size h.
+Proof.
+  intros (Hv & Hp & Hsz & HFv & HFp) Hx Hy. unfold cswap.
+  destruct (rd_Forall _ (c_val h) x HFv ltac:(lia)) as (tmp & Hr1 & Htmp). rewrite Hr1. cbn [kbind].
+  destruct (rd_Forall _ (c_val h) y HFv ltac:(lia)) as (vy & Hr2 & Hvy). rewrite Hr2. cbn [kbind].
+  rewrite wr_ok by lia. cbn [kbind].
+  rewrite wr_ok by (rewrite set_nth_length; lia). cbn [kbind].
+  set (val2 := set_nth (set_nth (c_val h) x vy) y tmp).
+  assert (HF2 : Forall (fun v => v < n) val2) by (unfold val2; auto using Forall_set_nth).
+  assert (HL2 : length val2 = n) by (unfold val2; rewrite !set_nth_length; exact Hv).
+  destruct (rd_Forall _ val2 x HF2 ltac:(lia)) as (vx' & Hr3 & Hvx'). rewrite Hr3. cbn [kbind].
+  rewrite wr_ok by lia. cbn [kbind].
+  destruct (rd_Forall _ val2 y HF2 ltac:(lia)) as (vy' & Hr4 & Hvy'). rewrite Hr4. cbn [kbind].
+  rewrite wr_ok by (rewrite set_nth_length; lia). cbn [kbind].
+  eexists. split; [reflexivity|]. split; [|reflexivity].
+  unfold hinv; cbn [c_val c_pos c_size]. rewrite !set_nth_length.
+  repeat split; auto using Forall_set_nth.
+Qed.
+
+Lemma cinsert_loop_ok n scores : length scores = n ->
+  forall fuel h i, hinv n h -> i < n -> i <= fuel ->
+    exists h', cinsert_loop fuel h scores i (cparent i) = KOk h' /\ hinv n h' /\ c_size h' = c_size h.
+Proof.
+  intros Hs. induction fuel as [|f IH]; intros h i Hh Hi Hf; cbn [cinsert_loop];
+    (destruct (0 <=? cparent i)%Z eqn:Ep; [|exists h; auto]);
+    apply Z.leb_le in Ep; pose proof (cparent_lt i Ep) as Hlt; [lia|].
+  destruct (cscorez_ok n h scores (cparent i) Hh Hs Ep ltac:(lia)) as (sp & Hsp). rewrite Hsp. cbn [kbind].
+  destruct (cscore_ok n h scores i Hh Hs Hi) as (si & Hsi). rewrite Hsi. cbn [kbind].
+  destruct (sp >? si)%Z; [|exists h; auto].
+  destruct (cswap_ok n h i (Z.to_nat (cparent i)) Hh Hi ltac:(lia)) as (h1 & Hsw & Hh1 & Hsz1).
+  rewrite Hsw. cbn [kbind].
+  destruct (IH h1 (Z.to_nat (cparent i)) Hh1 ltac:(lia) ltac:(lia)) as (h2 & Hl & Hh2 & Hsz2).
+  exists h2. split; [exact Hl|]. split; [exact Hh2|]. lia.
+Qed.
+
+Lemma cinsert_key_ok n h k scores :
+  hinv n h -> length scores = n -> c_size h < n -> k < n ->
+  exists h', cinsert_key h k scores = KOk h' /\ hinv n h' /\ c_size h' = S (c_size h).
+Proof.
+  intros (Hv & Hp & Hsz & HFv & HFp) Hs Hlt Hk. unfold cinsert_key.
+  rewrite wr_ok by lia. cbn [kbind]. rewrite wr_ok by lia. cbn [kbind].
+  apply (cinsert_loop_ok n scores Hs); auto.
+  unfold hinv; cbn [c_val c_pos c_size]. rewrite !set_nth_length.
+  repeat split; auto using Forall_set_nth.
+Qed.
+
+Lemma cdecrease_loop_ok n scores : length scores = n ->
+  forall fuel h pos, hinv n h -> pos < n -> pos <= fuel ->
+    exists h', cdecrease_loop fuel h scores pos (cparent pos) = KOk h' /\ hinv n h' /\ c_size h' = c_size h.
+Proof.
+  intros Hs. induction fuel as [|f IH]; intros h pos Hh Hi Hf; cbn [cdecrease_loop];
+    (destruct (pos =? 0) eqn:E0; cbn [negb]; [exists h; auto|]);
+    apply Nat.eqb_neq in E0; [lia|].
+  pose proof (cparent_nonneg pos E0) as Ep. pose proof (cparent_lt pos Ep) as Hlt.
+  destruct (cscorez_ok n h scores (cparent pos) Hh Hs Ep ltac:(lia)) as (sp & Hsp). rewrite Hsp. cbn [kbind].
+  destruct (cscore_ok n h scores pos Hh Hs Hi) as (si & Hsi). rewrite Hsi. cbn [kbind].
+  destruct (sp >? si)%Z; [|exists h; auto].
+  destruct (cswap_ok n h pos (Z.to_nat (cparent pos)) Hh Hi ltac:(lia)) as (h1 & Hsw & Hh1 & Hsz1).
+  rewrite Hsw. cbn [kbind].
+  destruct (IH h1 (Z.to_nat (cparent pos)) Hh1 ltac:(lia) ltac:(lia)) as (h2 & Hl & Hh2 & Hsz2).
+  exists h2. split; [exact Hl|]. split; [exact Hh2|]. lia.
+Qed.
+
+Lemma cdecrease_key_ok n h i scores :
+  hinv n h -> length scores = n -> i < n ->
+  exists h', cdecrease_key h i scores = KOk h' /\ hinv n h' /\ c_size h' = c_size h.
+Proof.
+  intros Hh Hs Hi. pose proof Hh as (Hv & Hp & Hsz & HFv & HFp). unfold cdecrease_key.
+  destruct (rd_Forall _ (c_pos h) i HFp ltac:(lia)) as (pos & Hr & Hpos). rewrite Hr. cbn [kbind].
+  destruct (pos <? c_size h); [|exists h; auto].
+  apply (cdecrease_loop_ok n scores Hs); auto.
+Qed.
+
+(** min_heapify: the recursion descends ([smallest] is a child of [i] below [size]), so [size - i] units
+    of fuel suffice. *)
+Lemma cmin_heapify_ok n scores : length scores = n ->
+  forall fuel h i, hinv n h -> i < c_size h -> c_size h - i <= fuel ->
+    exists h', cmin_heapify fuel h i scores = KOk h' /\ hinv n h' /\ c_size h' = c_size h.
+Proof.
+  intros Hs. induction fuel as [|f IH]; intros h i Hh Hi Hf; [lia|].
+  pose proof Hh as (Hv & Hp & Hsz & HFv & HFp).
+  cbn [cmin_heapify]. unfold cleft, cright.
+  assert (H1 : exists sm1,
+             (if 2 * i + 1 <? c_size h
+              then do sl <- cscore h scores (2 * i + 1) ;; do si <- cscore h scores i ;;
+                   KOk (if (sl <? si)%Z then 2 * i + 1 else i)
+              else KOk i) = KOk sm1 /\ (sm1 = i \/ (sm1 = 2 * i + 1 /\ sm1 < c_size h))).
+  { destruct (2 * i + 1 <? c_size h) eqn:El; [|exists i; auto].
+    apply Nat.ltb_lt in El.
+    destruct (cscore_ok n h scores (2 * i + 1) Hh Hs ltac:(lia)) as (sl & Hsl). rewrite Hsl. cbn [kbind].
+    destruct (cscore_ok n h scores i Hh Hs ltac:(lia)) as (si & Hsi). rewrite Hsi. cbn [kbind].
+    destruct (sl <? si)%Z; eexists; split; try reflexivity; auto. }
+  destruct H1 as (sm1 & E1 & Hsm1). rewrite E1. cbn [kbind].
+  assert (H2 : exists sm2,
+             (if 2 * i + 2 <? c_size h
+              then do sr <- cscore h scores (2 * i + 2) ;; do ss <- cscore h scores sm1 ;;
+                   KOk (if (sr <? ss)%Z then 2 * i + 2 else sm1)
+              else KOk sm1) = KOk sm2 /\ (sm2 = sm1 \/ (sm2 = 2 * i + 2 /\ sm2 < c_size h))).
+  { destruct (2 * i + 2 <? c_size h) eqn:Er; [|exists sm1; auto].
+    apply Nat.ltb_lt in Er.
+    destruct (cscore_ok n h scores (2 * i + 2) Hh Hs ltac:(lia)) as (sr & Hsr). rewrite Hsr. cbn [kbind].
+    destruct (cscore_ok n h scores sm1 Hh Hs ltac:(lia)) as (ss & Hss). rewrite Hss. cbn [kbind].
+    destruct (sr <? ss)%Z; eexists; split; try reflexivity; auto. }
+  destruct H2 as (sm2 & E2 & Hsm2). rewrite E2. cbn [kbind].
+  destruct (sm2 =? i) eqn:E; cbn [negb]; [exists h; auto|].
+  apply Nat.eqb_neq in E.
+  destruct (cswap_ok n h i sm2 Hh ltac:(lia) ltac:(lia)) as (h1 & Hsw & Hh1 & Hsz1).
+  rewrite Hsw. cbn [kbind].
+  destruct (IH h1 sm2 Hh1 ltac:(lia) ltac:(lia)) as (h2 & Hl & Hh2 & Hsz2).
+  exists h2. split; [exact Hl|]. split; [exact Hh2|]. lia.
+Qed.
+
+Lemma cpop_min_ok n h scores :
+  hinv n h -> length scores = n -> 1 <= c_size h ->
+  exists r h', cpop_min h scores = KOk (r, h') /\ hinv n h' /\ c_size h' = c_size h - 1 /\ r < n.
+Proof.
+  intros Hh Hs H1. pose proof Hh as (Hv & Hp & Hsz & HFv & HFp). unfold cpop_min.
+  destruct (rd_Forall _ (c_val h) 0 HFv ltac:(lia)) as (root & Hr & Hroot).
+  destruct (c_size h =? 1) eqn:E1.
+  - apply Nat.eqb_eq in E1. rewrite Hr. cbn [kbind]. eexists. eexists. split; [reflexivity|].
+    split; [|split; [cbn [c_size]; lia | exact Hroot]].
+    unfold hinv; cbn [c_val c_pos c_size]. repeat split; auto. lia.
+  - apply Nat.eqb_neq in E1. rewrite Hr. cbn [kbind].
+    destruct (c_size h) as [|s] eqn:Esz; [lia|].
+    destruct (rd_Forall _ (c_val h) s HFv ltac:(lia)) as (last & Hr2 & Hlast). rewrite Hr2. cbn [kbind].
+    rewrite wr_ok by lia. cbn [kbind].
+    assert (HF1 : Forall (fun v => v < n) (set_nth (c_val h) 0 last)) by auto using Forall_set_nth.
+    destruct (rd_Forall _ _ 0 HF1 ltac:(rewrite set_nth_length; lia)) as (v0 & Hr3 & Hv0).
+    rewrite Hr3. cbn [kbind]. rewrite wr_ok by lia. cbn [kbind].
+    set (h1 := {| c_val := set_nth (c_val h) 0 last; c_pos := set_nth (c_pos h) v0 0;
+                  c_size := s; c_cap := c_cap h |}).
+    assert (Hh1 : hinv n h1).
+    { unfold hinv, h1; cbn [c_val c_pos c_size]. rewrite !set_nth_length.
+      repeat split; auto using Forall_set_nth; try lia. apply Forall_set_nth; auto. lia. }
+    destruct (cmin_heapify_ok n scores Hs s h1 0 Hh1) as (h2 & Hm & Hh2 & Hsz2).
+    { unfold h1; cbn [c_size]. lia. }
+    { unfold h1; cbn [c_size]. lia. }
+    rewrite Hm. cbn [kbind]. exists root, h2. split; [reflexivity|]. split; [exact Hh2|].
+    split; [|exact Hroot]. rewrite Hsz2. unfold h1; cbn [c_size]. lia.
+Qed.
+
+Lemma ccore_inner_ok n indptr indices : csr_pat_wf n indptr indices ->
+  forall ks degrees mh, (forall k, In k ks -> k < length indices) -> length degrees = n -> hinv n mh ->
+    exists degrees' mh', ccore_inner ks indices degrees mh = KOk (degrees', mh') /\
+                         length degrees' = n /\ hinv n mh' /\ c_size mh' = c_size mh.
+Proof.
+  intros Hwf. induction ks as [|k t IH]; intros degrees mh Hks Hd Hh; cbn [ccore_inner].
+  - exists degrees, mh. auto.
+  - destruct (csr_rd_indices _ _ _ k Hwf (Hks k (or_introl eq_refl))) as [Hr Hlt].
+    rewrite Hr. cbn [kbind].
+    rewrite (rd_ok degrees _ 0%Z) by lia. cbn [kbind].
+    rewrite wr_ok by lia. cbn [kbind].
+    destruct (cdecrease_key_ok n mh (nth k indices 0)
+                (set_nth degrees (nth k indices 0) (nth (nth k indices 0%nat) degrees 0 - 1)%Z) Hh)
+      as (mh1 & Hdk & Hh1 & Hsz1).
+    { rewrite set_nth_length. exact Hd. }
+    { exact Hlt. }
+    rewrite Hdk. cbn [kbind].
+    destruct (IH (set_nth degrees (nth k indices 0) (nth (nth k indices 0%nat) degrees 0 - 1)%Z) mh1)
+      as (d' & mh' & Hi & Hd' & Hh' & Hsz'); auto.
+    { intros k' Hk'. apply Hks. right. exact Hk'. }
+    { rewrite set_nth_length. exact Hd. }
+    exists d', mh'. split; [exact Hi|]. split; [exact Hd'|]. split; [exact Hh'|]. lia.
+Qed.
+
+Lemma ccore_loop_ok n indptr indices : csr_pat_wf n indptr indices ->
+  forall fuel degrees mh cv labels pops,
+    hinv n mh -> length degrees = n -> length labels = n -> c_size mh <= fuel ->
+    exists labels', ccore_loop fuel indptr indices degrees mh cv labels pops
+                    = KOk (labels', pops + c_size mh) /\ length labels' = n.
+Proof.
+  intros Hwf. induction fuel as [|f IH]; intros degrees mh cv labels pops Hh Hd Hl Hf; cbn [ccore_loop];
+    (destruct (c_size mh =? 0) eqn:E0;
+     [apply Nat.eqb_eq in E0; rewrite E0, Nat.add_0_r; exists labels; auto|]);
+    apply Nat.eqb_neq in E0; [lia|].
+  destruct (cpop_min_ok n mh degrees Hh Hd ltac:(lia)) as (r & mh1 & Hp & Hh1 & Hsz1 & Hr).
+  rewrite Hp. cbn [kbind fst snd].
+  rewrite (rd_ok degrees r 0%Z) by lia. cbn [kbind].
+  rewrite (csr_rd_indptr _ _ _ r Hwf) by lia. cbn [kbind].
+  rewrite (csr_rd_indptr _ _ _ (S r) Hwf) by lia. cbn [kbind].
+  destruct (ccore_inner_ok n indptr indices Hwf (seq (ip indptr r) (ip indptr (S r) - ip indptr r))
+              degrees mh1) as (d' & mh2 & Hi & Hd' & Hh2 & Hsz2); auto.
+  { intros k Hk. apply in_seq in Hk.
+    pose proof (csr_le_nnz _ _ _ (S r) Hwf ltac:(lia)).
+    pose proof (csr_mono _ _ _ Hwf r (S r) ltac:(lia) ltac:(lia)). lia. }
+  rewrite Hi. cbn [kbind fst snd].
+  rewrite wr_ok by lia. cbn [kbind].
+  destruct (IH d' mh2 (Z.max cv (nth r degrees 0%Z))
+               (set_nth labels r (Z.max cv (nth r degrees 0%Z))) (S pops)) as (labels' & Hl' & Hlen'); auto.
+  { rewrite set_nth_length. exact Hl. }
+  { lia. }
+  exists labels'. split; [|exact Hlen']. rewrite Hl'. f_equal. f_equal. lia.
+Qed.
+
+Lemma cinsert_all_ok n degrees : length degrees = n ->
+  forall keys mh, hinv n mh -> (forall k, In k keys -> k < n) -> c_size mh + length keys <= n ->
+    exists mh', cinsert_all keys mh degrees = KOk mh' /\ hinv n mh' /\
+                c_size mh' = c_size mh + length keys.
+Proof.
+  intros Hd. induction keys as [|k t IH]; intros mh Hh Hk Hsz; cbn [cinsert_all].
+  - exists mh. split; [reflexivity|]. split; [exact Hh|]. simpl. lia.
+  - simpl in Hsz.
+    destruct (cinsert_key_ok n mh k degrees Hh Hd ltac:(lia) (Hk k (or_introl eq_refl)))
+      as (mh1 & Hi & Hh1 & Hsz1).
+    rewrite Hi. cbn [kbind].
+    destruct (IH mh1 Hh1) as (mh' & Ha & Hh' & Hsz').
+    { intros k' Hk'. apply Hk. right. exact Hk'. }
+    { lia. }
+    exists mh'. split; [exact Ha|]. split; [exact Hh'|]. simpl. lia.
+Qed.
+
+(** compute_core with the repaired MinHeap ([resize(n)]): no access out of bounds, n units of fuel
+    suffice, and exactly n pops are performed. *)
+Theorem ccompute_core_ok n indptr indices :
+  csr_pat_wf n indptr indices ->
+  exists labels, ccompute_core cheap_resize indptr indices = KOk (labels, n) /\ length labels = n.
+Proof.
+  intros Hwf. pose proof Hwf as (Hlen & _). unfold ccompute_core.
+  replace (length indptr - 1) with n by lia.
+  set (degrees := map _ (seq 0 n)).
+  assert (Hd : length degrees = n) by (unfold degrees; rewrite map_length, seq_length; reflexivity).
+  destruct (cinsert_all_ok n degrees Hd (seq 0 n) (cheap_resize n) (hinv_resize n))
+    as (mh & Ha & Hh & Hsz).
+  { intros k Hk. apply in_seq in Hk. lia. }
+  { rewrite seq_length. cbn [cheap_resize c_size]. lia. }
+  rewrite Ha. cbn [kbind].
+  destruct (ccore_loop_ok n indptr indices Hwf n degrees mh 0%Z (repeat 0%Z n) 0 Hh Hd)
+    as (labels & Hl & Hlen').
+  { apply repeat_length. }
+  { rewrite Hsz, seq_length. cbn [cheap_resize c_size]. lia. }
+  exists labels. split; [|exact Hlen']. rewrite Hl. rewrite Hsz, seq_length.
+  cbn [cheap_resize c_size]. reflexivity.
+Qed.
+
+(** Legacy MinHeap ([reserve(n)]: SIZE 0, capacity n): the first insert_key writes at index 0 >= size 0. *)
+Theorem cinsert_key_reserve_oob n k scores : cinsert_key (cheap_reserve n) k scores = OOB.
+Proof. reflexivity. Qed.
+
+Theorem ccompute_core_reserve_oob n indptr indices :
+  csr_pat_wf n indptr indices -> 1 <= n -> ccompute_core cheap_reserve indptr indices = OOB.
+Proof.
+  intros (Hlen & _) Hn. unfold ccompute_core.
+  replace (length indptr - 1) with (S (n - 1)) by lia.
+  cbn [seq cinsert_all]. rewrite cinsert_key_reserve_oob. reflexivity.
+Qed.
+
+(** * 4. BFS of get_distances: the fuel n + 1 of Model/Bfs.v is never exhausted *)
+
+Theorem bfs_never_out_of_fuel (g : graph) (src : list bool) :
+  length src = length g -> bfs g src <> None.
+Proof. intros H. destruct (bfs_exact g src H) as (d & Hd & _). rewrite Hd. discriminate. Qed.
+
+Lemma set_mask_length n off idx mask mk : set_mask n off idx mask = Ok mk -> length mk = n.
+Proof.
+  unfold set_mask. destruct (forallb _ idx); [|discriminate].
+  intros H. inversion H. rewrite map_length, seq_length. reflexivity.
+Qed.
+
+Lemma set_mask_cases n off idx mask :
+  (exists mk, set_mask n off idx mask = Ok mk /\ length mk = n) \/ set_mask n off idx mask = Err IndexError.
+Proof.
+  unfold set_mask. destruct (forallb _ idx); [left|right; reflexivity].
+  eexists. split; [reflexivity|]. rewrite map_length, seq_length. reflexivity.
+Qed.
+
+(** get_distances as a whole never reports OutOfFuel, whatever the arguments. *)
+Theorem get_distances_never_out_of_fuel m0 source source_row source_col tf fb :
+  get_distances m0 source source_row source_col tf fb <> Err Bfs.OutOfFuel.
+Proof.
+  unfold get_distances.
+  set (m := if tf then transpose m0 else m0).
+  set (fb' := match source_row, source_col with None, None => fb | _, _ => true end).
+  assert (Hfin : forall (bip : bool) g mk, length mk = length g ->
+            match bfs g mk with
+            | Some dist => if bip then Ok (firstn (p_nrow m) dist, Some (skipn (p_nrow m) dist))
+                           else Ok (dist, None)
+            | None => Err Bfs.OutOfFuel
+            end <> Err Bfs.OutOfFuel).
+  { intros bip g mk Hl. pose proof (bfs_never_out_of_fuel g mk Hl) as Hb.
+    destruct (bfs g mk); [|congruence]. destruct bip; discriminate. }
+  destruct (fb' || negb (p_nrow m =? p_ncol m)); clear fb'.
+  - set (g := block_undirected m). pose proof (repeat_length false (length g)) as Hrep.
+    destruct source as [s|], source_row as [sr|], source_col as [sc|]; try discriminate;
+      repeat match goal with
+             | |- context [set_mask ?n ?o ?i ?k] =>
+                 destruct (set_mask_cases n o i k) as [(? & -> & ?) | ->]
+             end; try discriminate; apply (Hfin true); assumption.
+  - set (g := p_rows m).
+    destruct source as [s|]; try discriminate.
+    destruct (set_mask_cases (length g) 0 s (repeat false (length g))) as [(mk & -> & Hl) | ->];
+      [apply (Hfin false); assumption | discriminate].
+Qed.
